@@ -39,7 +39,11 @@ CFG = {
         "writes; LoadAndDelete marks under the node lock and reads the value after unlocking; Load): the value of a node is written "
         "only under its lock while it is linked and unmarked, is frozen once the node is marked, a LoadAndDelete returns the value its "
         "victim had when it marked it (the last value stored: no lost update), a Store's pair is in the abstract map right after its "
-        "write; and the PRE-REPAIR Store (no node lock) is refuted: a concrete schedule stores into a marked node and the resulting "
+        "write, and LINEARIZABILITY OF THE VALUE MODEL: the recorded history of every complete execution of Store/Load/LoadAndDelete "
+        "programs (any keys, values, schedule) is linearizable w.r.t. the finite-map specification Spec.fmap_step, with the final "
+        "specification state equal to the final abstract map (C04_lazymap_linearizable; linearization points: fullyLinked step / "
+        "value write under the node lock / marking step; failing LoadAndDelete and Load by hindsight; a successful Load at its value "
+        "read or, if the node was marked in between, at the moment before the marking); and the PRE-REPAIR Store (no node lock) is refuted: a concrete schedule stores into a marked node and the resulting "
         "complete history is rejected by the verified checker (C04_lazymap_prerepair_refuted / _history_rejected). NOT proved: that "
         "the concurrent GO CODE is linearizable -- the protocol models are hand-written from the code and not tied to it by any "
         "theorem. Real interleavings are sampled: every check run records small concurrent histories of the real code (2-8 "
@@ -55,9 +59,9 @@ CFG = {
         "of Add) that node's flags is one step; only lane 0 is modelled (no upper-lane linking order, no highestLevel CAS, no length "
         "counter, no Range), sequentially consistent memory, a lock acquisition that fails is a no-op step. The model's Remove "
         "re-searches from the header when its marked victim is not found where expected; the progress proof shows that this "
-        "defensive branch is never taken. Linearizability of LazySkip is proved for the SET operations Add/Remove/Contains (all "
-        "keys); for the value model LazyMap the lock/flag discipline and the no-lost-update facts are proved, but NOT full "
-        "linearizability of Store/Load/LoadAndDelete w.r.t. the map spec, and LoadOrStore(Lazy)/Delete/Range are not in it. "
+        "defensive branch is never taken. Linearizability is proved for the SET operations Add/Remove/Contains of LazySkip and for "
+        "Store/Load/LoadAndDelete of LazyMap (all keys); LoadOrStore(Lazy)/Delete/Range/Len/Clear are in neither model (Delete is "
+        "LoadAndDelete without the value; LoadOrStore's found-node path reads the value without the lock). "
         "C04_lazyskip_one_remove_wins assumes the key is added by the only Add of that key, which responds before every Remove of it is "
         "invoked. Seeded in-code yield points were NOT added: a `verifYield(k)` line inside Store/Delete/... would "
         "touch existing lines, which hooks must not do; scheduling is perturbed from outside instead (GOMAXPROCS cycling "
@@ -88,7 +92,8 @@ CFG = {
                                 "C04_lazyskip_one_add_wins", "C04_lazyskip_one_remove_wins",
                                 "C04_lazymap_lock_owner", "C04_lazymap_value_write", "C04_lazymap_marked_frozen",
                                 "C04_lazymap_lad_returns_marked_value", "C04_lazymap_store_visible",
-                                "C04_lazymap_prerepair_refuted", "C04_lazymap_prerepair_history_rejected"])],
+                                "C04_lazymap_prerepair_refuted", "C04_lazymap_prerepair_history_rejected",
+                                "C04_lazymap_linearizable"])],
     "trusted": [
         "height oracle: node heights are premises of the refinement theorems (>= 1, what randomLevel() returns); the harness "
         "injects them through the reassignable fastrand.Uint32 and reads them back through the verif accessor VerifShape",
